@@ -268,4 +268,465 @@ Section TopoProofs.
     apply kahn_perm; [exact He | | exact Hp].
     intros a. apply (sccf_perm nodes nodes' edges edges' Hp He a).
   Qed.
+
+  (* ---------------------------------------------------------------- *)
+  (* Acyclic graphs                                                     *)
+  (* ---------------------------------------------------------------- *)
+
+  (* acyclic: the nodes can be ranked so that every edge goes upwards *)
+  Definition ranked (edges : list (L * L)) : Prop :=
+    exists rank : L -> nat, forall a b, In (a, b) edges -> rank a < rank b.
+  Definition closed (nodes : list L) (edges : list (L * L)) : Prop :=
+    forall a b, In (a, b) edges -> In a nodes /\ In b nodes.
+
+  (* t is a topological order: no edge leads from a later to an earlier element *)
+  Fixpoint topo_ok (edges : list (L * L)) (t : list L) : Prop :=
+    match t with
+    | [] => True
+    | m :: t' => (forall a, In a t' -> ~ In (a, m) edges) /\ topo_ok edges t'
+    end.
+
+  (* position of the first occurrence *)
+  Fixpoint idx (t : list L) (x : L) : nat :=
+    match t with
+    | [] => 0
+    | y :: t' => if leqb x y then 0 else S (idx t' x)
+    end.
+
+  Lemma filter_none (p : L -> bool) l : (forall b, In b l -> p b = false) -> filter p l = [].
+  Proof.
+    induction l as [|x l IH]; simpl; intros H; [reflexivity|].
+    rewrite (H x (or_introl eq_refl)). apply IH. intros b Hb. apply H. right. exact Hb.
+  Qed.
+
+  Lemma filter_all (p : L -> bool) l : (forall b, In b l -> p b = true) -> filter p l = l.
+  Proof.
+    induction l as [|x l IH]; simpl; intros H; [reflexivity|].
+    rewrite (H x (or_introl eq_refl)). f_equal. apply IH. intros b Hb. apply H. right. exact Hb.
+  Qed.
+
+  Lemma filter_single (p : L -> bool) l a :
+    NoDup l -> In a l -> (forall b, In b l -> (p b = true <-> b = a)) -> filter p l = [a].
+  Proof.
+    induction l as [|x l IH]; intros Hnd Hin Hp; [destruct Hin|].
+    inversion Hnd as [|? ? Hx Hnd']; subst. simpl.
+    destruct Hin as [-> | Hin].
+    - rewrite (proj2 (Hp a (or_introl eq_refl)) eq_refl). f_equal.
+      apply filter_none. intros b Hb. destruct (p b) eqn:E; [|reflexivity].
+      exfalso. apply Hx. assert (b = a) by (apply (Hp b); [right; exact Hb | exact E]). subst. exact Hb.
+    - destruct (p x) eqn:E.
+      + exfalso. apply Hx. assert (x = a) by (apply (Hp x); simpl; auto). subst. exact Hin.
+      + apply IH; auto. intros b Hb. apply Hp. right. exact Hb.
+  Qed.
+
+  Lemma remove_perm (m : L) R :
+    NoDup R -> In m R -> Permutation R (m :: filter (fun x => negb (mem x [m])) R).
+  Proof.
+    induction R as [|x R IH]; intros Hnd Hin; [destruct Hin|].
+    inversion Hnd as [|? ? Hx Hnd']; subst. simpl.
+    destruct (leqb x m) eqn:E; simpl.
+    - apply leqb_eq in E. subst x. apply perm_skip.
+      rewrite filter_all; [apply Permutation_refl|].
+      intros y Hy. simpl. rewrite orb_false_r. destruct (leqb y m) eqn:E'; [|reflexivity].
+      apply leqb_eq in E'. subst y. contradiction.
+    - destruct Hin as [-> | Hin]; [rewrite leqb_refl in E; discriminate|].
+      eapply perm_trans; [apply perm_skip; apply IH; assumption|]. apply perm_swap.
+  Qed.
+
+  Lemma idx_lt_split t a b :
+    idx t a < idx t b -> In b t -> exists l1 l2, t = l1 ++ a :: l2 /\ In b l2.
+  Proof.
+    induction t as [|y t IH]; simpl; [lia|].
+    destruct (leqb a y) eqn:Ea.
+    - apply leqb_eq in Ea. subst y. destruct (leqb b a) eqn:Eb; [lia|].
+      intros _ [E | Hb]; [subst; rewrite leqb_refl in Eb; discriminate|].
+      exists [], t. auto.
+    - destruct (leqb b y) eqn:Eb; [lia|]. intros Hlt [E | Hb]; [subst; rewrite leqb_refl in Eb; discriminate|].
+      destruct (IH (proj2 (Nat.succ_lt_mono _ _) Hlt) Hb) as [l1 [l2 [-> H2]]].
+      exists (y :: l1), l2. auto.
+  Qed.
+
+  Lemma topo_ok_idx edges t a b :
+    topo_ok edges t -> In (a, b) edges -> In a t -> In b t -> a <> b -> idx t a < idx t b.
+  Proof.
+    induction t as [|m t IH]; simpl; intros Hok He Ha Hb Hab; [destruct Ha|].
+    destruct Hok as [Hm Hok].
+    destruct (leqb a m) eqn:Ea.
+    - apply leqb_eq in Ea. subst m. destruct (leqb b a) eqn:Eb; [apply leqb_eq in Eb; congruence | lia].
+    - destruct (leqb b m) eqn:Eb.
+      + apply leqb_eq in Eb. subst m. exfalso. destruct Ha as [-> | Ha]; [congruence|]. apply (Hm a Ha He).
+      + apply (proj1 (Nat.succ_lt_mono _ _)).
+        destruct Ha as [-> | Ha]; [rewrite leqb_refl in Ea; discriminate|].
+        destruct Hb as [-> | Hb]; [rewrite leqb_refl in Eb; discriminate|]. apply IH; assumption.
+  Qed.
+
+  Lemma idx_topo_ok edges t :
+    NoDup t -> (forall a b, In (a, b) edges -> In a t -> In b t -> idx t a < idx t b) -> topo_ok edges t.
+  Proof.
+    induction t as [|m t IH]; intros Hnd H; simpl; [exact I|].
+    inversion Hnd as [|? ? Hm Hnd']; subst. split.
+    - intros a Ha He. specialize (H a m He (or_intror Ha) (or_introl eq_refl)). simpl in H.
+      rewrite leqb_refl in H. lia.
+    - apply IH; [exact Hnd'|]. intros a b He Ha Hb.
+      specialize (H a b He (or_intror Ha) (or_intror Hb)). simpl in H.
+      destruct (leqb a m) eqn:Ea; [apply leqb_eq in Ea; subst; contradiction|].
+      destruct (leqb b m) eqn:Eb; [apply leqb_eq in Eb; subst; contradiction|]. lia.
+  Qed.
+
+  Section Dag.
+    Variables (nodes : list L) (edges : list (L * L)) (rank : L -> nat).
+    Hypothesis Hrank : forall a b, In (a, b) edges -> rank a < rank b.
+    Hypothesis Hnd : NoDup nodes.
+
+    Lemma reach_set_rank k : forall r x,
+      In x (reach_set cmp edges k r) -> exists z, In z r /\ (x = z \/ rank z < rank x).
+    Proof.
+      induction k as [|k IH]; intros r x H; simpl in H; [exists x; auto|].
+      apply IH in H. destruct H as [z [Hz Hx]]. apply expand_in in Hz.
+      destruct Hz as [Hz | [w [Hw Hwz]]]; [exists z; auto|].
+      exists w. split; [exact Hw|]. right. apply Hrank in Hwz. destruct Hx; subst; lia.
+    Qed.
+
+    (* in an acyclic graph every component is a single node *)
+    Lemma sccf_dag a : In a nodes -> sccf nodes edges a = [a].
+    Proof.
+      intros Ha. rewrite sccf_eq. rewrite (proj2 (mem_in a nodes) Ha). unfold scc_with.
+      rewrite (filter_single _ nodes a Hnd Ha); [reflexivity|].
+      intros b Hb. rewrite !reach_tab_get, (proj2 (mem_in a nodes) Ha), (proj2 (mem_in b nodes) Hb).
+      rewrite andb_true_iff, !mem_in. split.
+      - intros [H1 H2]. apply reach_set_rank in H1, H2.
+        destruct H1 as [z [[<- | []] H1]], H2 as [z [[<- | []] H2]].
+        destruct H1 as [-> | H1]; [reflexivity|]. destruct H2 as [-> | H2]; [reflexivity | lia].
+      - intros ->. split; apply reach_set_mono; left; reflexivity.
+    Qed.
+
+    Lemma min_rank (R : list L) : R <> [] -> exists m, In m R /\ forall x, In x R -> rank m <= rank x.
+    Proof.
+      induction R as [|a R IH]; [congruence|]. intros _. destruct R as [|b R].
+      - exists a. split; [left; reflexivity|]. intros x [<- | []]. lia.
+      - destruct IH as [m [Hm Hmin]]; [discriminate|].
+        destruct (le_lt_dec (rank a) (rank m)).
+        + exists a. split; [left; reflexivity|]. intros x [<- | Hx]; [lia|]. specialize (Hmin x Hx). lia.
+        + exists m. split; [right; exact Hm|]. intros x [<- | Hx]; [lia | apply Hmin; exact Hx].
+    Qed.
+
+    Lemma has_ext_pred_false R m :
+      has_ext_pred cmp edges R [m] = false <-> forall a, In a R -> a <> m -> ~ In (a, m) edges.
+    Proof.
+      unfold has_ext_pred. split.
+      - intros H a Ha Hne He.
+        assert (existsb (fun e => mem (snd e) [m] && negb (mem (fst e) [m]) && mem (fst e) R) edges = true);
+          [|congruence].
+        apply existsb_exists. exists (a, m). split; [exact He|]. simpl.
+        rewrite leqb_refl. simpl. rewrite (proj2 (mem_in a R) Ha).
+        destruct (leqb a m) eqn:E; [apply leqb_eq in E; contradiction | reflexivity].
+      - intros H. apply not_true_iff_false. intros E. apply existsb_exists in E.
+        destruct E as [[a b] [He E]]. simpl in E. rewrite !andb_true_iff in E. destruct E as [[E1 E2] E3].
+        rewrite orb_false_r in E1, E2. apply leqb_eq in E1. subst b. apply mem_in in E3.
+        apply (H a E3); [|exact He]. intros ->. rewrite leqb_refl in E2. discriminate.
+    Qed.
+
+    (* Kahn's loop on an acyclic graph: never stuck, emits every remaining node
+       once, in a topological order, and that order is the lexicographically
+       least one *)
+    Lemma kahn_dag : forall fuel R acc,
+      NoDup R -> (forall a, In a R -> In a nodes) -> length R <= fuel ->
+      exists t, kahn cmp edges (sccf nodes edges) fuel R acc = Some (acc ++ t)
+                /\ Permutation R t /\ topo_ok edges t
+                /\ (forall t', Permutation R t' -> topo_ok edges t' -> list_cmp cmp t t' <> Gt).
+    Proof.
+      induction fuel as [|fuel IH]; intros R acc HndR Hsub Hlen.
+      - destruct R; [|simpl in Hlen; lia]. exists []. rewrite app_nil_r. simpl.
+        repeat split; auto. intros t' Hp _. apply Permutation_nil in Hp. subst. simpl. discriminate.
+      - destruct R as [|a0 R0] eqn:ER.
+        { exists []. rewrite app_nil_r. simpl. repeat split; auto.
+          intros t' Hp _. apply Permutation_nil in Hp. subst. simpl. discriminate. }
+        rewrite <- ER in *. assert (Hne : R <> []) by (rewrite ER; discriminate).
+        (* a node of least rank is ready *)
+        destruct (min_rank R Hne) as [m0 [Hm0 Hmin0]].
+        assert (Hready0 : In [m0] (ready cmp edges (sccf nodes edges) R)).
+        { unfold ready. apply filter_In. split.
+          - apply in_map_iff. exists m0. split; [apply sccf_dag; apply Hsub; exact Hm0 | exact Hm0].
+          - apply negb_true_iff. apply has_ext_pred_false. intros a Ha _ He.
+            apply Hrank in He. specialize (Hmin0 a Ha). lia. }
+        destruct (pick_min cmp (ready cmp edges (sccf nodes edges) R)) as [c|] eqn:Epick;
+          [|apply pick_min_none in Epick; rewrite Epick in Hready0; destruct Hready0].
+        destruct (pick_min_spec _ _ Epick) as [Hc_in Hc_min].
+        unfold ready in Hc_in. apply filter_In in Hc_in. destruct Hc_in as [Hc_map Hc_ready].
+        apply in_map_iff in Hc_map. destruct Hc_map as [m [Em Hm]].
+        rewrite (sccf_dag m (Hsub m Hm)) in Em. subst c.
+        apply negb_true_iff in Hc_ready.
+        pose proof (proj1 (has_ext_pred_false R m) Hc_ready) as Hnopred.
+        set (R' := filter (fun x => negb (mem x [m])) R).
+        assert (HpR : Permutation R (m :: R')) by (apply remove_perm; assumption).
+        assert (HndR' : NoDup R') by (apply NoDup_filter; exact HndR).
+        assert (HsubR' : forall a, In a R' -> In a nodes).
+        { intros a Ha. apply Hsub. apply filter_In in Ha. tauto. }
+        assert (HlenR' : length R' <= fuel).
+        { apply Permutation_length in HpR. simpl in HpR. lia. }
+        destruct (IH R' (acc ++ [m]) HndR' HsubR' HlenR') as [t1 [Hk [Hp1 [Hok1 Hmin1]]]].
+        exists (m :: t1).
+        assert (HR'in : forall a, In a R' -> In a R /\ a <> m).
+        { intros a Ha. apply filter_In in Ha. destruct Ha as [Ha Hb]. split; [exact Ha|].
+          intros ->. simpl in Hb. rewrite leqb_refl in Hb. discriminate. }
+        split; [| split; [| split]].
+        + rewrite ER. cbn [kahn]. rewrite <- ER. rewrite Epick. fold R'. rewrite Hk.
+          rewrite <- app_assoc. reflexivity.
+        + eapply perm_trans; [exact HpR | apply perm_skip; exact Hp1].
+        + simpl. split; [|exact Hok1]. intros a Ha.
+          apply (Permutation_in _ (Permutation_sym Hp1)) in Ha. apply HR'in in Ha. destruct Ha.
+          apply Hnopred; assumption.
+        + intros t' Hp' Hok'.
+          destruct t' as [|h t1']; [exfalso; apply Hne; apply Permutation_nil; symmetry; exact Hp'|].
+          assert (Hh : In h R) by (eapply Permutation_in; [symmetry; exact Hp' | left; reflexivity]).
+          assert (Hreadyh : In [h] (ready cmp edges (sccf nodes edges) R)).
+          { unfold ready. apply filter_In. split.
+            - apply in_map_iff. exists h. split; [apply sccf_dag; apply Hsub; exact Hh | exact Hh].
+            - apply negb_true_iff. apply has_ext_pred_false. intros a Ha Hah He.
+              simpl in Hok'. destruct Hok' as [Hok' _]. apply (Hok' a); [|exact He].
+              apply (Permutation_in _ Hp') in Ha. destruct Ha as [E | Ha]; [congruence | exact Ha]. }
+          specialize (Hc_min [h] Hreadyh). unfold comp_cmp in Hc_min. simpl in Hc_min. simpl.
+          destruct (cmp m h) eqn:Emh; [| discriminate | exact Hc_min].
+          apply (tc_eq cmp Hc) in Emh. subst h. apply Hmin1.
+          * apply Permutation_cons_inv with m. eapply perm_trans; [symmetry; exact HpR | exact Hp'].
+          * simpl in Hok'. tauto.
+    Qed.
+  End Dag.
+
+  Lemma topo_sort_dag nodes edges :
+    ranked edges -> NoDup nodes ->
+    exists t, topo_sort cmp nodes edges = Some t /\ Permutation nodes t /\ topo_ok edges t
+              /\ (forall t', Permutation nodes t' -> topo_ok edges t' -> list_cmp cmp t t' <> Gt).
+  Proof.
+    intros [rank Hrank] Hnd.
+    destruct (kahn_dag nodes edges rank Hrank Hnd (length nodes) nodes [] Hnd (fun a H => H) (le_n _))
+      as [t [Hk H]].
+    exists t. split; [exact Hk | exact H].
+  Qed.
+
+  (* on an acyclic graph the loop never runs out of fuel or ready components *)
+  Theorem topo_sort_no_fuel_exhaustion nodes edges :
+    ranked edges -> NoDup nodes -> topo_sort cmp nodes edges <> None.
+  Proof. intros Hr Hnd. destruct (topo_sort_dag nodes edges Hr Hnd) as [t [E _]]. congruence. Qed.
+
+  (* every label exactly once *)
+  Theorem topo_sort_complete nodes edges t :
+    ranked edges -> NoDup nodes -> topo_sort cmp nodes edges = Some t ->
+    Permutation nodes t /\ NoDup t.
+  Proof.
+    intros Hr Hnd E. destruct (topo_sort_dag nodes edges Hr Hnd) as [t0 [E0 [Hp _]]].
+    assert (t0 = t) by congruence. subst. split; [exact Hp | eapply Permutation_NoDup; eauto].
+  Qed.
+
+  (* for every edge (a, b), a is printed before b *)
+  Theorem topo_sort_respects_edges nodes edges t :
+    ranked edges -> NoDup nodes -> closed nodes edges -> topo_sort cmp nodes edges = Some t ->
+    forall a b, In (a, b) edges ->
+      idx t a < idx t b /\ exists l1 l2, t = l1 ++ a :: l2 /\ In b l2.
+  Proof.
+    intros Hr Hnd Hcl E a b He. destruct (topo_sort_dag nodes edges Hr Hnd) as [t0 [E0 [Hp [Hok _]]]].
+    assert (t0 = t) by congruence. subst t0.
+    destruct (Hcl a b He) as [Ha Hb].
+    assert (Hab : a <> b). { destruct Hr as [rank Hrank]. intros ->. apply Hrank in He. lia. }
+    assert (Hlt : idx t a < idx t b).
+    { apply (topo_ok_idx edges); auto; eapply Permutation_in; eauto. }
+    split; [exact Hlt|]. apply idx_lt_split; [exact Hlt | eapply Permutation_in; eauto].
+  Qed.
+
+  (* among all topological orders of the graph the result is the
+     lexicographically least one (by label name) *)
+  Theorem topo_sort_lex_min nodes edges t :
+    ranked edges -> NoDup nodes -> topo_sort cmp nodes edges = Some t ->
+    forall t', Permutation nodes t' -> topo_ok edges t' -> list_cmp cmp t t' <> Gt.
+  Proof.
+    intros Hr Hnd E. destruct (topo_sort_dag nodes edges Hr Hnd) as [t0 [E0 [_ [_ Hmin]]]].
+    assert (t0 = t) by congruence. subst. exact Hmin.
+  Qed.
+
+  (* ---------------------------------------------------------------- *)
+  (* Merging declaration orders                                         *)
+  (* ---------------------------------------------------------------- *)
+
+  Inductive subseq : list L -> list L -> Prop :=
+  | sub_nil l : subseq [] l
+  | sub_skip o x l : subseq o l -> subseq o (x :: l)
+  | sub_take x o l : subseq o l -> subseq (x :: o) (x :: l).
+
+  Lemma subseq_in o l : subseq o l -> forall a, In a o -> In a l.
+  Proof.
+    induction 1 as [l | o x l H IH | x o l H IH]; intros a Ha; [destruct Ha | right; auto |].
+    destruct Ha as [<- | Ha]; [left; reflexivity | right; auto].
+  Qed.
+
+  (* the declaration orders are jointly consistent: their chains form an
+     acyclic graph *)
+  Definition consistent (os : list (list L)) : Prop := ranked (edges_of_orders os).
+
+  Lemma dedup_in l x : In x (dedup cmp l) <-> In x l.
+  Proof.
+    induction l as [|a l IH]; simpl; [tauto|].
+    destruct (mem a l) eqn:E.
+    - rewrite IH. split; [auto|]. intros [<- | H]; [apply mem_in; exact E | exact H].
+    - simpl. rewrite IH. tauto.
+  Qed.
+
+  Lemma dedup_nodup l : NoDup (dedup cmp l).
+  Proof.
+    induction l as [|a l IH]; simpl; [constructor|].
+    destruct (mem a l) eqn:E; [exact IH|]. constructor; [|exact IH].
+    rewrite dedup_in. apply mem_false. exact E.
+  Qed.
+
+  Lemma chain_edges_in (o : list L) : forall a b, In (a, b) (chain_edges o) -> In a o /\ In b o.
+  Proof.
+    induction o as [|x o IH]; intros a b H; [destruct H|].
+    destruct o as [|y o]; [destruct H|]. destruct H as [[= <- <-] | H]; [simpl; auto|].
+    destruct (IH a b H). split; right; assumption.
+  Qed.
+
+  Lemma edges_of_orders_in (os : list (list L)) e :
+    In e (edges_of_orders os) <-> exists o, In o os /\ In e (chain_edges o).
+  Proof. unfold edges_of_orders. apply in_flat_map. Qed.
+
+  Lemma nodes_of_orders_in os x :
+    In x (nodes_of_orders cmp os) <-> exists o, In o os /\ In x o.
+  Proof.
+    unfold nodes_of_orders. rewrite dedup_in, in_concat. split; intros [o H]; exists o; tauto.
+  Qed.
+
+  Lemma edges_of_orders_closed os : closed (nodes_of_orders cmp os) (edges_of_orders os).
+  Proof.
+    intros a b H. apply edges_of_orders_in in H. destruct H as [o [Ho H]].
+    apply chain_edges_in in H. rewrite !nodes_of_orders_in. split; exists o; tauto.
+  Qed.
+
+  (* the merged order is a function of the SET of declaration orders: the order
+     in which the struct literals are met (and repetitions of one) is immaterial *)
+  Theorem merge_orders_function_of_orders os os' :
+    (forall o, In o os <-> In o os') -> merge_orders cmp os = merge_orders cmp os'.
+  Proof.
+    intros H. unfold merge_orders. apply topo_sort_perm_invariant.
+    - apply NoDup_Permutation; try apply dedup_nodup.
+      intros x. rewrite !nodes_of_orders_in. split; intros [o [Ho Hx]]; exists o; (split; [apply H|]; assumption).
+    - intros e. rewrite !edges_of_orders_in. split; intros [o [Ho Hx]]; exists o; (split; [apply H|]; assumption).
+  Qed.
+
+  Lemma chain_sorted (R : L -> L -> Prop) o :
+    (forall a b, In (a, b) (chain_edges o) -> R a b) -> Sorted R o.
+  Proof.
+    induction o as [|x o IH]; intros H; [constructor|].
+    destruct o as [|y o]; [constructor; constructor|].
+    constructor.
+    - apply IH. intros a b Hab. apply H. right. exact Hab.
+    - constructor. apply H. left. reflexivity.
+  Qed.
+
+  Lemma SS_shift y t o :
+    (forall x, In x o -> leqb x y = false) ->
+    StronglySorted (fun a b => idx (y :: t) a < idx (y :: t) b) o ->
+    StronglySorted (fun a b => idx t a < idx t b) o.
+  Proof.
+    intros Hne H. induction H as [|a o Hs IH Hf]; constructor.
+    - apply IH. intros x Hx. apply Hne. right. exact Hx.
+    - rewrite Forall_forall in *. intros x Hx. specialize (Hf x Hx). simpl in Hf.
+      rewrite (Hne a (or_introl eq_refl)), (Hne x (or_intror Hx)) in Hf. lia.
+  Qed.
+
+  Lemma idx_sorted_subseq : forall t o,
+    (forall x, In x o -> In x t) ->
+    StronglySorted (fun a b => idx t a < idx t b) o -> subseq o t.
+  Proof.
+    induction t as [|y t IH]; intros o Hin Hs.
+    - destruct o as [|a o]; [constructor|]. exfalso. apply (Hin a). left; reflexivity.
+    - destruct o as [|a o]; [constructor|].
+      inversion Hs as [|? ? Hs' Hf]; subst. rewrite Forall_forall in Hf.
+      assert (Hne : forall x, In x o -> leqb x y = false).
+      { intros x Hx. specialize (Hf x Hx). simpl in Hf. destruct (leqb x y); [|reflexivity].
+        destruct (leqb a y); lia. }
+      assert (Hin' : forall x, In x o -> In x t).
+      { intros x Hx. destruct (Hin x (or_intror Hx)) as [E | H]; [|exact H].
+        subst x. specialize (Hne y Hx). rewrite leqb_refl in Hne. discriminate. }
+      destruct (leqb a y) eqn:Ea.
+      + apply leqb_eq in Ea. subst y. apply sub_take. apply IH; [exact Hin'|].
+        apply (SS_shift a); assumption.
+      + apply sub_skip. apply IH.
+        * intros x [<- | Hx]; [|apply Hin'; exact Hx].
+          destruct (Hin a (or_introl eq_refl)) as [E | H]; [|exact H].
+          subst. rewrite leqb_refl in Ea. discriminate.
+        * apply (SS_shift y); [|exact Hs]. intros x [<- | Hx]; [exact Ea | apply Hne; exact Hx].
+  Qed.
+
+  (* If the declaration orders are jointly consistent, the merged order exists,
+     lists exactly the declared labels, each once, and every declaration order
+     is a subsequence of it. *)
+  Theorem merge_orders_respects_each_order os :
+    consistent os ->
+    exists t, merge_orders cmp os = Some t /\ NoDup t
+              /\ (forall x, In x t <-> exists o, In o os /\ In x o)
+              /\ forall o, In o os -> subseq o t.
+  Proof.
+    intros Hcons. unfold merge_orders.
+    pose proof (dedup_nodup (concat os)) as Hnd. fold (nodes_of_orders cmp os) in Hnd.
+    destruct (topo_sort_dag _ _ Hcons Hnd) as [t [E [Hp [Hok _]]]].
+    exists t. split; [exact E|]. split; [eapply Permutation_NoDup; eauto|]. split.
+    - intros x. rewrite <- nodes_of_orders_in. split; apply Permutation_in; [symmetry|]; exact Hp.
+    - intros o Ho. apply idx_sorted_subseq.
+      + intros x Hx. apply (Permutation_in _ Hp). apply nodes_of_orders_in. exists o. auto.
+      + apply Sorted_StronglySorted; [intros x y z; apply Nat.lt_trans|].
+        apply chain_sorted. intros a b Hab.
+        apply (topo_sort_respects_edges _ _ t Hcons Hnd (edges_of_orders_closed os) E).
+        apply edges_of_orders_in. exists o. auto.
+  Qed.
+
+  (* consistency, spelled out: the orders have a common duplicate-free
+     supersequence (and then the merged order is one) *)
+  Lemma subseq_idx o t : subseq o t -> NoDup t ->
+    forall a b, In (a, b) (chain_edges o) -> idx t a < idx t b.
+  Proof.
+    induction 1 as [l | o x l H IH | x o l H IH]; intros Hnd a b Hab; [destruct Hab | |].
+    - inversion Hnd as [|? ? Hx Hnd']; subst.
+      destruct (chain_edges_in o a b Hab) as [Ha Hb].
+      apply (subseq_in _ _ H) in Ha, Hb. simpl.
+      destruct (leqb a x) eqn:Ea; [apply leqb_eq in Ea; subst; contradiction|].
+      destruct (leqb b x) eqn:Eb; [apply leqb_eq in Eb; subst; contradiction|].
+      apply (proj1 (Nat.succ_lt_mono _ _)). apply IH; assumption.
+    - inversion Hnd as [|? ? Hx Hnd']; subst.
+      destruct o as [|y o]; [destruct Hab|].
+      destruct Hab as [[= <- <-] | Hab].
+      + simpl. rewrite leqb_refl.
+        assert (Hy : In y l) by (apply (subseq_in _ _ H); left; reflexivity).
+        destruct (leqb y x) eqn:Ey; [apply leqb_eq in Ey; subst; contradiction | lia].
+      + destruct (chain_edges_in _ a b Hab) as [Ha Hb].
+        apply (subseq_in _ _ H) in Ha, Hb. simpl.
+        destruct (leqb a x) eqn:Ea; [apply leqb_eq in Ea; subst; contradiction|].
+        destruct (leqb b x) eqn:Eb; [apply leqb_eq in Eb; subst; contradiction|].
+        apply (proj1 (Nat.succ_lt_mono _ _)). apply IH; assumption.
+  Qed.
+
+  Theorem consistent_iff_common_supersequence os :
+    consistent os <-> exists t, NoDup t /\ forall o, In o os -> subseq o t.
+  Proof.
+    split.
+    - intros H. destruct (merge_orders_respects_each_order os H) as [t [_ [Hnd [_ Hs]]]]. exists t. auto.
+    - intros [t [Hnd Hs]]. exists (idx t). intros a b Hab.
+      apply edges_of_orders_in in Hab. destruct Hab as [o [Ho Hab]].
+      apply (subseq_idx o t (Hs o Ho) Hnd). exact Hab.
+  Qed.
 End TopoProofs.
+
+(* the concrete label order of compareNodeByName is a total order *)
+Lemma label_cmp_total : total_cmp label_cmp.
+Proof.
+  constructor.
+  - intros [i|s] [j|t]; simpl; split; try congruence.
+    + intros H. apply N.compare_eq_iff in H. congruence.
+    + intros [= ->]. apply N.compare_refl.
+    + intros H. apply (tc_eq _ str_cmp_total) in H. congruence.
+    + intros [= ->]. apply (tc_refl _ str_cmp_total).
+  - intros [i|s] [j|t]; simpl; try reflexivity.
+    + apply N.compare_antisym.
+    + apply (tc_opp _ str_cmp_total).
+  - intros [i|s] [j|t] [k|u]; simpl; try congruence.
+    + apply (tc_trans _ N_compare_total).
+    + apply (tc_trans _ str_cmp_total).
+Qed.
